@@ -45,6 +45,18 @@ pub fn data_strategy() -> impl Strategy<Value = Vec<u8>> {
             6 => proptest::collection::vec(byte_strategy(), n),
             1 => Just(vec![0xFFu8; n]),
             1 => Just(vec![0x00u8; n]),
+            // almost uniform: one fill byte with one or two deviations anywhere (decisions taken on a word-wise or
+            // sampled look at the data - "blank", "all ones" - are wrong exactly here)
+            2 => (proptest::sample::select(vec![0x00u8, 0xFF, 0x20, 0x5A]), proptest::collection::vec((any::<u16>(), 1u8..=255), 1..=2)).prop_map(move |(fill, devs)| {
+                let mut v = vec![fill; n];
+                for (pos, d) in devs {
+                    if n > 0 {
+                        let i = crate::engine::pick_idx(pos, n);
+                        v[i] ^= d;
+                    }
+                }
+                v
+            }),
         ]
     })
 }
